@@ -51,10 +51,11 @@ func ruleBISON(c *Ctx) {
 						ok := false
 						for _, g := range gs {
 							if g.Pol && g.Kind == "if" {
-								for _, m := range kindRe.FindAllStringSubmatch(g.Pipe, -1) {
-									if m[2] == fmt.Sprint(la) && strings.Contains(m[1], "rule.Value") {
-										ok = true
-									}
+								// the whole guard is the kind test: a disjunction ("or (eq …) (not $rule.RHS)")
+								// would print the bare %empty for other rules too
+								whole := regexp.MustCompile(`^\s*eq\s+(\S+\.Kind)\s+(\d+)\s*$`).FindStringSubmatch(g.Pipe)
+								if whole != nil && whole[2] == fmt.Sprint(la) && strings.Contains(whole[1], "rule.Value") {
+									ok = true
 								}
 							}
 						}
